@@ -190,6 +190,14 @@ def run(c, chk):
         sub6 = report.SubCheck(chk, 'R8.11', 'C06', only=('R6.5',))
         _c06.run(c, sub6)
         sub6.done('position bookkeeping')
+    # R8.14: the scanner (its buffer stack, its start condition) lives as long as the root context does: freeing a SECTION - which
+    # happens in the middle of a parse when a titled section is given again - must not tear it down.  cfg_free() tells the two
+    # apart by the context name: that comparison is with the whole word
+    if not isinstance(chk, report.SubCheck):
+        from . import c09 as _c09w
+        _c09w.whole_comparisons(c, chk, 'R8.14', 'cfg_free() recognises the root context by comparing its whole name: no length-limited comparison lets a section whose name only begins '
+                                'with the word pass for the root and tear the scanner down while a text is being read',
+                                only_funcs={'cfg_free'}, consequence=' - freeing (replacing) a section of that name in the middle of a parse destroys the scanner: the rest of the text is never read')
     # R8.10: what "+=" does depends on the text, not on flags a refused assignment of an earlier parse left behind
     from . import c01 as _c01
     from .. import parsermodel as _pm
